@@ -1,0 +1,11 @@
+//go:build !verif
+
+package leveldb
+
+// Verification hooks, disabled. See verif_on.go (build tag "verif").
+
+func verifPoint(point string) {}
+
+func verifEvent(ev string, b *Batch, key []byte, n int) {}
+
+func verifVersionInstalled(s *session, v *version) {}
